@@ -1,177 +1,109 @@
-(* C11 scan_preserves_map: the scan keeps the block map of every disk well formed (MapOK of Array/SyncProofsDefs.v:
-   no two file blocks of a disk share a position, positions strictly increase inside a file, no duplicate DELETED
-   position, no DELETED entry under a file block). *)
+(* C11 sync_converges, first half: a sync loop without faults over data that can be read and that hashes to every recorded
+   hash completes every enabled stripe: afterwards each visited stripe holds only BLK blocks (a DELETED entry survives only
+   in a stripe without any file block, and is dropped when the state is saved), no error is counted. *)
 From Coq Require Import NArith ZArith List Bool Arith Lia.
-From Snap.Array Require Import ArrayDefs SyncModel SyncProofsDefs.
-From Snap.Scan Require Import ScanModel ScanBasics ScanSteps ScanSound ScanCopy.
+From Snap.Array Require Import ArrayDefs SyncModel SyncProofsDefs SyncProofsStripe.
+From Snap.Scan Require Import ScanBasics ScanSound StripeProofs.
 Import ListNotations.
 
-(* --- lists of positions ------------------------------------------------------------------------------------------- *)
-Lemma NoDup_app_iff {A} (l1 l2 : list A) : NoDup (l1 ++ l2) <-> NoDup l1 /\ NoDup l2 /\ (forall x, In x l1 -> ~ In x l2).
-Proof.
-  induction l1 as [|a t IH]; simpl.
-  - split; [intro H; repeat split; [constructor | exact H | intros ? []] | intros [_ [H _]]; exact H].
-  - split.
-    + intro H. inversion H as [|x l Hn Hd]; subst. apply IH in Hd. destruct Hd as [A1 [A2 A3]].
-      repeat split; auto.
-      * constructor; [intro Hi; apply Hn; apply in_app_iff; auto | exact A1].
-      * intros x [Hx|Hx] Hx2; [subst; apply Hn; apply in_app_iff; auto | exact (A3 x Hx Hx2)].
-    + intros [H1 [H2 H3]]. inversion H1 as [|x l Hn Hd]; subst. constructor.
-      * intro Hi. apply in_app_iff in Hi. destruct Hi as [Hi|Hi]; [contradiction | exact (H3 a (or_introl eq_refl) Hi)].
-      * apply IH. repeat split; auto.
-Qed.
+Section Conv.
+  Variable hashf : bid -> N -> hval.
+  Variable bs : N.
+  Variable nlev : nat.
+  Variable o : sopts.
+  Variable fs : list (option fsdisk).
 
-Lemma map_ok_remove pre l post dp :
-  map_ok (pre ++ l :: post) dp -> map_ok (pre ++ post) (dp ++ l).
-Proof.
-  intros [N1 [I1 [N2 D1]]]. rewrite concat_app in N1. simpl in N1.
-  apply NoDup_app_iff in N1. destruct N1 as [Npre [Nrest Dpre]]. apply NoDup_app_iff in Nrest. destruct Nrest as [Nl [Npost Dl]].
-  assert (Hc : forall p, In p (concat (pre ++ post)) -> In p (concat (pre ++ l :: post))).
-  { intros p Hp. rewrite concat_app in *. simpl. apply in_app_iff in Hp. apply in_app_iff. destruct Hp; [auto | right; apply in_app_iff; auto]. }
-  repeat split.
-  - rewrite concat_app. apply NoDup_app_iff. repeat split; auto.
-    intros x Hx Hx2. apply (Dpre x Hx). apply in_app_iff. auto.
-  - intros l0 Hl0. apply I1. apply in_app_iff in Hl0. apply in_app_iff. simpl. tauto.
-  - apply NoDup_app_iff. repeat split; auto.
-    intros x Hx Hx2. apply (D1 x Hx). rewrite concat_app. simpl. apply in_app_iff. right. apply in_app_iff. auto.
-  - intros p Hp Hp2. apply in_app_iff in Hp. destruct Hp as [Hp|Hp].
-    + exact (D1 p Hp (Hc p Hp2)).
-    + rewrite concat_app in Hp2. apply in_app_iff in Hp2. destruct Hp2 as [Hp2|Hp2].
-      * apply (Dpre p Hp2). apply in_app_iff. auto.
-      * exact (Dl p Hp Hp2).
-Qed.
+  (* the block of this slot can be read and, unless it is CHG, hashes to its recorded hash *)
+  Definition slot_good (j : nat) (s : slot) : Prop :=
+    match s with
+    | SFile f idx b => exists blk len, read_slot bs (nth j fs None) (SFile f idx b) None = RdOk blk len /\
+                                       (fb_state b <> SChg -> hashf blk len = fb_hash b)
+    | _ => True
+    end.
+  Definition stripe_good (c : content) (p : nat) : Prop := forall j, slot_good j (slot_of c p j).
 
-Section Map.
-  Variables (basef : N -> N) (bs : N) (clearpast nocopy : bool) (inf : list (option info)).
+  (* nothing left to do at this stripe *)
+  Definition stripe_fine (c : content) (p : nat) : Prop :=
+    forall j, match slot_of c p j with
+              | SFile _ _ b => fb_state b = SBlk
+              | SDeleted _ => forall j', slot_has_file (slot_of c p j') = false
+              | SEmpty => True
+              end.
 
-  Definition sposs (sf : sfile) : list nat := file_poss (sf_f sf).
-  Definition smap_ok (d : sdisk) : Prop := map_ok (map sposs (sd_files d)) (map fst (sd_deleted d)).
-
-  Lemma dealloc_fst f del : map fst (dealloc clearpast f del) = map fst del ++ file_poss f.
-  Proof. unfold dealloc, file_poss. rewrite map_app, map_map. reflexivity. Qed.
-
-  Lemma smap_kicked d dk : kicked d dk -> smap_ok d -> smap_ok dk.
+  Lemma slot_good_view j s s' : sview_of s' = sview_of s -> slot_good j s -> slot_good j s'.
   Proof.
-    intros [E | [pre [sf [post [Ef [Hp [Hn E]]]]]]] H; [subst; exact H|]. subst dk. unfold smap_ok in *. simpl.
-    rewrite Ef in H. rewrite map_app in *. simpl in *. exact H.
+    destruct s as [|f i b|h], s' as [|f' i' b'|h']; simpl; intro E; try discriminate; auto.
+    inversion E; subst. intros [blk [len [A B]]]. exists blk, len. split; [|exact B].
+    rewrite <- A. unfold read_slot. destruct (nth j fs None); [|reflexivity]. congruence.
+  Qed.
+  Lemma stripe_good_views c c' p : same_views c c' p -> stripe_good c p -> stripe_good c' p.
+  Proof. intros [_ V] G j. apply (slot_good_view j (slot_of c p j)); [apply V | apply G]. Qed.
+  Lemma stripe_fine_views c c' p : same_views c c' p -> stripe_fine c p -> stripe_fine c' p.
+  Proof.
+    intros [_ V] G j. specialize (G j). pose proof (V j) as Vj.
+    destruct (slot_of c p j) as [|f i b|h], (slot_of c' p j) as [|f' i' b'|h']; simpl in Vj; try discriminate; auto.
+    - inversion Vj; subst. exact G.
+    - intro j'. rewrite (view_has_file _ _ (V j')). apply G.
   Qed.
 
-  Lemma smap_fstep usable e w k d d' :
-    fstep basef bs clearpast nocopy inf usable e w k d d' -> smap_ok d -> smap_ok d'.
+  (* --- one clean iteration ------------------------------------------------------------------------------------------- *)
+  Notation step := (disk_step hashf bs o 0).
+  Definition clean (a : acc) : Prop :=
+    a_bail a = false /\ a_err a = false /\ a_io a = false /\ a_silent a = false /\ a_nerr a = 0 /\ a_nsilent a = 0 /\ a_nio a = 0.
+  Definition fine (x : nat * slot * rd) : Prop :=
+    match x with
+    | (_, SFile f idx b, r) => exists blk len, r = RdOk blk len /\ (fb_state b <> SChg -> hashf blk len = fb_hash b)
+    | _ => True
+    end.
+
+  Lemma step_clean a x : fine x -> clean a -> clean (step a x).
   Proof.
-    intros S I. destruct S as [target Hn Hl | dk dc pre sf post f' Hkick Ef Hp R S E | dk d1 was src cnt Hkick Hr Es E].
-    - apply scan_link_spec in Hl. destruct Hl as [F1 [_ [F3 _]]]. unfold smap_ok. rewrite F1, F3. exact I.
-    - apply (smap_kicked d dk Hkick) in I. destruct S as [S1 [S2 [S3 _]]]. destruct R as [R1 _]. subst d'.
-      unfold smap_ok in *. rewrite Ef in I. rewrite map_app in I. simpl in I.
-      assert (Ep : sposs (mkSF f' true false) = sposs sf) by (unfold sposs, file_poss; simpl; rewrite R1; reflexivity).
-      unfold keep. cbn [sf_f]. destruct (full_invalid_stable inf f'); unfold sd_set_files; cbn [sd_files sd_deleted].
-      + rewrite S3. rewrite dealloc_fst. rewrite map_app. change (file_poss f') with (sposs (mkSF f' true false)). rewrite Ep. apply map_ok_remove. exact I.
-      + rewrite S3. rewrite map_app. cbn [map]. rewrite Ep. exact I.
-    - apply (smap_kicked d dk Hkick) in I.
-      assert (I1 : smap_ok d1).
-      { destruct Hr as [[_ [E1 _]] | [_ [pre [sf [post [f1 [Ef [Hp [Hn [Hb E1]]]]]]]]]]; [subst; exact I|].
-        subst d1. unfold smap_ok in *. cbn [sd_files sd_deleted]. rewrite Ef in I. rewrite map_app in I. cbn [map] in I.
-        rewrite dealloc_fst. rewrite map_app. replace (file_poss f1) with (sposs sf) by (unfold sposs, file_poss; rewrite Hb; reflexivity).
-        apply map_ok_remove. exact I. }
-      subst d'. exact I1.
+    destruct x as [[j s] r]. intros F (C1 & C2 & C3 & C4 & C5 & C6 & C7). unfold clean, disk_step. rewrite C1.
+    destruct s as [|f idx b|h]; cbn -[Nat.leb].
+    - repeat split; assumption.
+    - destruct F as [blk [len [Er Eh]]]. subst r.
+      destruct (fb_state b) eqn:Es; cbn -[Nat.leb].
+      + rewrite (proj2 (hval_eqb_true _ _) (Eh ltac:(discriminate))). repeat split; assumption.
+      + repeat split; assumption.
+      + rewrite (proj2 (hval_eqb_true _ _) (Eh ltac:(discriminate))). repeat split; assumption.
+    - repeat split; assumption.
+  Qed.
+  Lemma fold_clean xs : forall a, (forall x, In x xs -> fine x) -> clean a -> clean (fold_left step xs a).
+  Proof.
+    induction xs as [|x t IH]; simpl; intros a F C; [exact C|].
+    apply IH; [intros y Hy; apply F; right; exact Hy | apply step_clean; [apply F; left; reflexivity | exact C]].
   Qed.
 
-  (* --- the second phase ------------------------------------------------------------------------------------------- *)
-  Lemma remove_missing_map_gen (P : sfile -> bool) t : forall kept del,
-    map_ok (map sposs (kept ++ t)) (map fst del) ->
-    map_ok (map sposs (kept ++ filter P t))
-           (map fst (fold_left (fun del sf => dealloc clearpast (sf_f sf) del) (filter (fun sf => negb (P sf)) t) del)).
+  Lemma in_combine3 (slots : list slot) (F : nat -> rd) x :
+    In x (combine (combine (seq 0 (length slots)) slots) (map F (seq 0 (length slots)))) ->
+    exists j, j < length slots /\ x = (j, nth j slots SEmpty, F j).
   Proof.
-    induction t as [|x t IH]; intros kept del H; simpl; [exact H|].
-    destruct (P x) eqn:E; simpl.
-    - replace (kept ++ x :: filter P t) with ((kept ++ [x]) ++ filter P t) by (rewrite <- app_assoc; reflexivity).
-      apply IH. rewrite <- app_assoc. exact H.
-    - apply IH. rewrite dealloc_fst. rewrite map_app in *. simpl in H. apply map_ok_remove. exact H.
+    intro H. apply (In_nth _ _ (0, SEmpty, F 0)) in H. destruct H as [n [Hn E]].
+    rewrite !combine_length, map_length, seq_length in Hn. assert (Hn' : n < length slots) by lia.
+    exists n. split; [exact Hn'|]. rewrite <- E.
+    rewrite combine_nth by (rewrite combine_length, map_length, seq_length; lia).
+    rewrite combine_nth by (rewrite seq_length; reflexivity).
+    rewrite seq_nth by exact Hn'. rewrite (map_nth F). rewrite seq_nth by exact Hn'. reflexivity.
   Qed.
 
-  Lemma remove_missing_map d : smap_ok d -> smap_ok (remove_missing clearpast d).
-  Proof. intro H. unfold smap_ok, remove_missing. simpl. exact (remove_missing_map_gen sf_present (sd_files d) [] (sd_deleted d) H). Qed.
-
-  (* first free position *)
-  Lemma ffree_ge fuel occ : forall p, p <= ffree fuel occ p.
-  Proof. induction fuel as [|n IH]; simpl; intro p; [lia|]. destruct (existsb (Nat.eqb p) occ); [pose proof (IH (S p)); lia | lia]. Qed.
-
-  Lemma filter_len_mono {A} (f g : A -> bool) l : (forall x, f x = true -> g x = true) -> length (filter f l) <= length (filter g l).
+  Theorem sync_stripe_good now c par pos :
+    stripe_good c pos ->
+    let r := sync_stripe hashf bs nlev o now 0 c par fs [] pos in
+    so_bail r = false /\ so_nerr r = 0 /\ so_nsilent r = 0 /\ so_nio r = 0 /\
+    forall j, match slot_of (so_content r) pos j with SFile _ _ b => fb_state b = SBlk | SEmpty => True | SDeleted _ => False end.
   Proof.
-    intro H. induction l as [|x t IH]; simpl; [lia|]. destruct (f x) eqn:E1.
-    - rewrite (H x E1). simpl. lia.
-    - destruct (g x); simpl; lia.
-  Qed.
-  Lemma filter_len_strict {A} (f g : A -> bool) l a :
-    (forall x, f x = true -> g x = true) -> In a l -> f a = false -> g a = true -> length (filter f l) < length (filter g l).
-  Proof.
-    intro H. induction l as [|x t IH]; simpl; intros Ha Hf Hg; [destruct Ha|]. destruct Ha as [Ha|Ha].
-    - subst x. rewrite Hf, Hg. simpl. pose proof (filter_len_mono f g t H). lia.
-    - specialize (IH Ha Hf Hg). destruct (f x) eqn:E1; [rewrite (H x E1); simpl; lia | destruct (g x); simpl; lia].
-  Qed.
-
-  Lemma filter_ge_shrink occ p : In p occ ->
-    length (filter (fun q => S p <=? q) occ) < length (filter (fun q => p <=? q) occ).
-  Proof.
-    intro H. apply (filter_len_strict _ _ occ p); auto.
-    - intros x Hx. apply Nat.leb_le in Hx. apply Nat.leb_le. lia.
-    - apply Nat.leb_gt. lia.
-    - apply Nat.leb_refl.
-  Qed.
-
-  Lemma ffree_notin fuel occ : forall p, length (filter (fun q => p <=? q) occ) < fuel -> ~ In (ffree fuel occ p) occ.
-  Proof.
-    induction fuel as [|n IH]; simpl; intros p H; [lia|].
-    destruct (existsb (Nat.eqb p) occ) eqn:E.
-    - apply IH. apply existsb_exists in E. destruct E as [x [Hx Ex]]. apply Nat.eqb_eq in Ex. subst x.
-      pose proof (filter_ge_shrink occ p Hx). lia.
-    - intro Hin. assert (existsb (Nat.eqb p) occ = true) by (apply existsb_exists; exists p; split; [exact Hin | apply Nat.eqb_refl]). congruence.
-  Qed.
-
-  Lemma ffree_spec occ p : let r := ffree (S (length occ)) occ p in p <= r /\ ~ In r occ.
-  Proof.
-    split; [apply ffree_ge|]. apply ffree_notin.
-    assert (L : length (filter (fun q => p <=? q) occ) <= length occ) by (clear; induction occ as [|x t IH]; simpl; [lia | destruct (p <=? x); simpl; lia]). lia.
-  Qed.
-
-  (* allocation: the new positions are strictly increasing from ff on, avoid occ, and exactly the DELETED entries at
-     those positions are dropped *)
-  Definition drop_at (ps : list nat) (del : list (nat * hval)) : list (nat * hval) :=
-    filter (fun ph => negb (existsb (Nat.eqb (fst ph)) ps)) del.
-
-  Lemma drop_at_cons pos ps del :
-    drop_at ps (filter (fun ph : nat * hval => negb (Nat.eqb (fst ph) pos)) del) = drop_at (pos :: ps) del.
-  Proof.
-    unfold drop_at. induction del as [|x t IH]; simpl; [reflexivity|].
-    destruct (Nat.eqb (fst x) pos) eqn:E; simpl; [exact IH|]. destruct (existsb (Nat.eqb (fst x)) ps); simpl; [exact IH | rewrite IH; reflexivity].
-  Qed.
-  Lemma drop_at_app ps1 ps2 del : drop_at ps2 (drop_at ps1 del) = drop_at (ps1 ++ ps2) del.
-  Proof.
-    unfold drop_at. induction del as [|x t IH]; simpl; [reflexivity|]. rewrite existsb_app.
-    destruct (existsb (Nat.eqb (fst x)) ps1); simpl; [exact IH|]. destruct (existsb (Nat.eqb (fst x)) ps2); simpl; [exact IH | rewrite IH; reflexivity].
-  Qed.
-  Lemma drop_at_in ps del ph : In ph (drop_at ps del) <-> In ph del /\ ~ In (fst ph) ps.
-  Proof.
-    unfold drop_at. rewrite filter_In. rewrite negb_true_iff. split; intros [A B]; split; auto.
-    - intro Hc. assert (existsb (Nat.eqb (fst ph)) ps = true) by (apply existsb_exists; exists (fst ph); split; [exact Hc | apply Nat.eqb_refl]). congruence.
-    - destruct (existsb (Nat.eqb (fst ph)) ps) eqn:E; [|reflexivity]. apply existsb_exists in E. destruct E as [x [Hx Ex]].
-      apply Nat.eqb_eq in Ex. subst x. contradiction.
-  Qed.
-
-  Lemma drop_at_nil del : drop_at [] del = del.
-  Proof. unfold drop_at. simpl. induction del as [|x t IH]; simpl; [reflexivity | rewrite IH; reflexivity]. Qed.
-
-  Lemma alloc_blocks_spec occ bl : forall ff del,
-    let '(ff', del', nbl) := alloc_blocks clearpast inf occ ff del bl in
-    let ps := map fb_pos nbl in
-    length nbl = length bl /\ ff <= ff' /\ (forall p, In p ps -> ff <= p < ff' /\ ~ In p occ) /\
-    increasing ps /\ del' = drop_at ps del.
-  Proof.
-    induction bl as [|b t IH]; intros ff del.
-    - simpl. split; [reflexivity|]. split; [lia|]. split; [intros p []|]. split; [intros i j H; simpl in H; lia|].
-      symmetry. apply drop_at_nil.
-    - rewrite alloc_blocks_cons. unfold alloc_block at 1. cbv zeta.
-      set (pos := ffree (S (length occ)) occ ff).
-      destruct (ffree_spec occ ff) as [Hge Hnot]. fold pos in Hge, Hnot.
-      set (del1 := filter (fun ph : nat * hval => negb (Nat.eqb (fst ph) pos)) del).
-      Show.
+    intros G r. unfold r, sync_stripe. clear r. cbv zeta.
+    change (map (fun od : option cdisk => match od with Some d => slot_at d pos | None => SEmpty end) (c_disks c)) with (slots c pos).
+    set (sl := slots c pos).
+    set (F := fun j => read_slot bs (nth j fs None) (nth j sl SEmpty) (nth j (@nil (option rd)) None)).
+    set (xs := combine (combine (seq 0 (length sl)) sl) (map F (seq 0 (length sl)))).
+    match goal with |- context [fold_left _ xs ?a] => set (a0 := a) end.
+    assert (C : clean (fold_left step xs a0)).
+    { apply fold_clean; [|unfold clean, a0; simpl; repeat split].
+      intros x Hx. destruct (in_combine3 sl F x Hx) as [j [Hj E]]. subst x. unfold fine.
+      pose proof (G j) as Gj. unfold slot_of in Gj. fold sl in Gj.
+      destruct (nth j sl SEmpty) as [|f idx b|h] eqn:Es; auto.
+      destruct Gj as [blk [len [A B]]]. exists blk, len. split; [|exact B]. unfold F. rewrite Es.
+      replace (nth j (@nil (option rd)) None) with (@None rd) by (destruct j; reflexivity). exact A. }
+    destruct C as (C1 & C2 & C3 & C4 & C5 & C6 & C7).
+    Show.
